@@ -777,10 +777,12 @@ func init() {
 			"Q2 every result of completeWord / completeLastWord is returned through sortUnique and the entry points Comp.CompleteWords / completeWords only forward such results or nil; Q3 sortUnique sorts its argument before the duplicate-removal loop, which keeps an element exactly when it differs from the previously kept one; " +
 			"Q4 scope: completeWord walks every scope outwards (co = c; co != nil; co = co.Outer) over both Binds and Types, plus the keywords; members of an imported package are its Binds and Types; the methods of a field's type are offered only when the field is embedded, and the method collector dereferences a pointer type and tests, dereferences and enumerates one and the same type (its parameter); W1 the breadth-first walks over embedded fields in xreflect/lookup.go (VisitFields, FieldByName, MethodByName) never fill a work list that shares its backing array with the one being visited; " +
 			"Q6 Interp.CompleteWords splits the line at the clamped cursor (head = line[:pos], tail = line[pos:]), never modifies the tail and only shortens the head to a prefix. " +
+			"Q7 the partial identifier is trimmed from the very string whose length it is subtracted from, and the first word of a dotted chain is resolved by the scope walk, never by indexing one scope's Binds / Types. " +
 			"Not decided: that every valid name is found by TryLookupFieldOrMethod-based navigation of dotted chains, unexported members of other packages, the exact head after trimming the partial identifier.",
 		Assumptions: []string{"sort.Strings sorts", "xreflect.Type.Method enumerates the method set of a named type"},
 		Rules: []func(*Ctx){func(c *Ctx) {
 			rulePrefixGuard(c, "Q1-prefix-guard")
+			ruleCompletionShape(c, "Q7-completion-shape")
 			ruleSortedUnique(c, "Q2-sorted-unique")
 			ruleCompletionScope(c, "Q4-completion-scope")
 			ruleCompletionSplit(c, "Q6-head-tail")
@@ -789,6 +791,8 @@ func init() {
 		}},
 		Technique: "AST/type-resolved custom analysis: guard-condition check on every append site, must-pass-through (sortUnique) on returns, chain-walk shape, subject-consistency of a closure, slice-index agreement",
 		Mutants: []Mutant{
+			{Name: "partial-identifier-measured-on-the-whole-line", File: "fast/repl.go", Old: "fixed := len(head) - len(TailIdentifier(head))", New: "fixed := len(head) - len(TailIdentifier(line))"},
+			{Name: "chain-head-type-looked-up-in-innermost-scope", File: "fast/repl.go", Old: "} else if typ := c.TryResolveType(words[0]); typ != nil {", New: "} else if typ := c.Types[words[0]]; typ != nil {"},
 			{Name: "types-offered-without-prefix-test", File: "fast/repl.go", Old: "\t\t\tfor name := range co.Types {\n\t\t\t\tif len(name) >= size && name[:size] == word {\n\t\t\t\t\tcompletions = append(completions, name)\n\t\t\t\t}\n", New: "\t\t\tfor name := range co.Types {\n\t\t\t\tif len(name) >= size {\n\t\t\t\t\tcompletions = append(completions, name)\n\t\t\t\t}\n", Canary: true},
 			{Name: "last-word-not-sorted", File: "fast/repl.go", Old: "\t\tbreak\n\t}\n\treturn sortUnique(completions)", New: "\t\tbreak\n\t}\n\treturn completions", Canary: true},
 			{Name: "dedup-before-sort", File: "fast/repl.go", Old: "\t\tsort.Strings(vec)\n\t\tprev := vec[0]", New: "\t\tprev := vec[0]\n\t\tdefer sort.Strings(vec)"},
